@@ -17,6 +17,7 @@ mod s_radv;
 mod s_c05;
 mod s_cfg;
 mod e2e;
+mod s_crash;
 
 /// Virtual wall clock: when >= 0, every CLOCK_REALTIME read in this process (Rust std and C
 /// libraries alike) returns this many seconds. The symbol overrides libc's at static link time.
@@ -71,6 +72,7 @@ fn run_case(line: &str) -> String {
         "dnsrt" => s_dnswire::rt(args),
         "inreply" => s_dnswire::inreply(args),
         "leasedb" => s_leasedb::run(args),
+        "crashkill" => s_crash::run(args),
         "ra" => s_radv::run(args),
         "icmp6" => s_c05::icmp6(args),
         "lldp" => s_c05::lldp(args),
@@ -113,6 +115,11 @@ pub fn last_panic() -> String {
 }
 
 fn main() {
+    // child mode of the `crashkill` suite: allocate leases until killed
+    let argv: Vec<String> = std::env::args().collect();
+    if argv.len() == 5 && argv[1] == "crash-child" {
+        s_crash::child(&argv[2], argv[3].parse().expect("harness: n"), argv[4].parse().expect("harness: seed"));
+    }
     log::set_logger(&LOGGER).expect("harness: logger");
     log::set_max_level(log::LevelFilter::Trace);
     std::panic::set_hook(Box::new(|info| {
